@@ -115,21 +115,20 @@ def run(pid, plan, tier, seed, work, replay, t0):
                 schedules.append(vlib.schedule_from_events("mcex-%s-%s" % (mc["name"], r["violated"]), evs, consts))
         cov["exhaustive"] = all(m["completed"] for m in cov["model_runs"]) and len(cov["model_runs"]) > 0
         # (G) schedules from simulation of the faithful spec
-        sim = plan.get("sim", {}).get(tier)
-        if sim:
+        for si, sim in enumerate(plan.get("sims", {}).get(tier, [])):
             consts = dict(sim["consts"])
             consts["KeepHist"] = "TRUE"
             cfg = vlib.make_cfg(dict(consts, Depth=sim["depth"]), invariants=["Dump"], symmetry=False, view=False)
-            r = vlib.tlc(os.path.join(work, "sim"), "RaftSim", cfg,
+            r = vlib.tlc(os.path.join(work, "sim%d" % si), "RaftSim", cfg,
                          args=["-workers", "1", "-simulate", "num=%d" % sim["num"], "-depth", str(sim["depth"] + 1), "-seed", str(seed)],
                          timeout=sim.get("timeout", 600))
             if r["error"]:
-                raise HarnessError("TLC simulate failed: " + r["error"] + "\n" + r["out"][-1500:])
+                raise HarnessError("TLC simulate failed: " + r["error"][:800])
             hs = vlib.sched_lines(r["out"])[:sim["num"]]
             for k, evs in enumerate(hs):
-                schedules.append(vlib.schedule_from_events("sim-%d-%d" % (seed, k), evs, consts))
-            log("G simulate: %d schedules of depth %d in %.0fs" % (len(hs), sim["depth"], r["wall"]))
-            cov["model_runs"].append({"config": "simulate", "constants": consts, "behaviours": len(hs), "depth": sim["depth"], "wall_s": round(r["wall"], 1)})
+                schedules.append(vlib.schedule_from_events("sim%d-%d-%d" % (si, seed, k), evs, consts))
+            log("G simulate[%d]: %d schedules of depth %d in %.0fs" % (si, len(hs), sim["depth"], r["wall"]))
+            cov["model_runs"].append({"config": "simulate-%d" % si, "constants": consts, "behaviours": len(hs), "depth": sim["depth"], "wall_s": round(r["wall"], 1)})
         # attack schedules (counterexamples of guard-off variants of the spec)
         for name in plan.get("attacks", []):
             for s in plans.load_attacks(name):
@@ -168,7 +167,11 @@ def run(pid, plan, tier, seed, work, replay, t0):
             tv["drifts"] += r["drifts"]
     cov["traces_validated_against_impl"] = tv["accepted_runs"]
     cov["trace_validation"] = {"runs": tv["total_runs"], "accepted": tv["accepted_runs"], "drifts": tv["drifts"][:10]}
+    os.makedirs(os.path.join(vlib.VERIF, "out", "drift"), exist_ok=True)
     for d in tv["drifts"]:
+        for sc in schedules:
+            if sc["name"] == d["sched"]:
+                json.dump(sc, open(os.path.join(vlib.VERIF, "out", "drift", "%s-%s.json" % (pid, d["sched"])), "w"))
         log("DRIFT property=%s the real code left the specification at step %s of %s (event %s); model-checking results no longer transfer to this tree" %
             (pid, d["seq"], d["sched"], json.dumps(d["ev"])[:200]))
     uniq = {}
